@@ -51,6 +51,8 @@ type c12run struct {
 	lastV      map[uint16][]*big.Int // last SMP message of each type the victim sent
 	nTLV       int
 	degenerate bool // an out-of-range group element was put on the wire (v2 known-finding class)
+	knownSig   string
+	knownMsg   string
 	hits       int
 }
 
@@ -117,6 +119,12 @@ func (r *c12run) judgeEvents(ev []sim.SMPEv, allowSuccess bool, what string) {
 				if r.sc.Cfg.V == 2 && r.degenerate {
 					sig = "C12/v2-no-group-check"
 				}
+				if sim.KnownOpen(sig) {
+					// an open known finding: remember it, but keep going so that anything else behind it is still seen
+					r.knownMsg = fmt.Sprintf("the victim carried the SMP run forward (%v) on %s although a verifier applying the specification's checks rejects: %s", e.Ev, what, r.sh.reject)
+					r.knownSig = sig
+					break
+				}
 				r.o.Fail(sig, "the victim carried the SMP run forward (%v) on %s although a verifier applying the specification's checks rejects: %s", e.Ev, what, r.sh.reject)
 				return
 			}
@@ -127,6 +135,11 @@ func (r *c12run) judgeEvents(ev []sim.SMPEv, allowSuccess bool, what string) {
 		sig := "C12/false-success"
 		if r.sc.Cfg.V == 2 && r.degenerate {
 			sig = "C12/v2-no-group-check"
+		}
+		if sim.KnownOpen(sig) {
+			r.knownSig = sig
+			r.knownMsg = fmt.Sprintf("the victim reported SMP success after %s although a verifier applying the specification's checks %s (secrets %s); events %v", what, r.whyNot(), matchWord(r.sc.Equal), ev)
+			return
 		}
 		r.o.Fail(sig, "the victim reported SMP success after %s although a verifier applying the specification's checks %s (secrets %s); events %v", what, r.whyNot(), matchWord(r.sc.Equal), ev)
 	}
@@ -185,6 +198,23 @@ func (r *c12run) deviate(st DStep, m []*big.Int, groupIdx map[int]bool) ([]*big.
 		}
 		out[i] = new(big.Int).Sub(ref.P, big.NewInt(1))
 		out[i+1], out[i+2] = ref.ResealLog(ver, r.refRnd)
+		r.degenerate = true
+		return out, true
+	}
+	if st.V == 11 && (len(m) == 6 || len(m) == 11) {
+		// 0 (or p) in place of g2x / g3x with the matching degenerate proof
+		i, ver := 0, byte(1)
+		if st.F%2 == 1 {
+			i, ver = 3, 2
+		}
+		if len(m) == 11 {
+			ver += 2
+		}
+		out[i] = big.NewInt(0)
+		if st.F%4 >= 2 {
+			out[i] = new(big.Int).Set(ref.P)
+		}
+		out[i+1], out[i+2] = ref.ResealZero(ver)
 		r.degenerate = true
 		return out, true
 	}
@@ -473,6 +503,22 @@ func runC12(sc *C12Script) *sim.Outcome {
 				}
 			}
 			r.prover, r.pRole = nil, 0
+		case "r3z":
+			// message 3 for a victim whose own Qb is 0 (it accepted g2a = 0): forces a division by zero if it got that far
+			m2 := r.lastV[ref.TLVSMP2]
+			if m2 == nil || r.prover == nil || r.pRole != 1 || len(m2) != 11 {
+				continue
+			}
+			d5, d6 := new(big.Int).Mod(r.refRnd(), ref.Q), new(big.Int).Mod(r.refRnd(), ref.Q)
+			r.sendSMP(ref.TLVSMP3, "", ref.ZeroQbMessage3(r.prover.SharedG3(m2[3]), d5, d6), 0)
+			r.degenerate = true
+			r.settle()
+			r.sh.reject = "the run rests on an out-of-range element"
+			r.sh.state = "e1"
+			r.hits++
+			o.Class("dev-smp3-zero-qb")
+			r.judgeEvents(m.A.SMP[nEv:], false, "SMP message 3 after g2a = 0")
+			r.prover, r.pRole = nil, 0
 		case "r4":
 			m3 := r.lastV[ref.TLVSMP3]
 			if m3 == nil || r.prover == nil || r.pRole != 2 {
@@ -514,6 +560,9 @@ func runC12(sc *C12Script) *sim.Outcome {
 	}
 	if o.Violation != "" {
 		return o
+	}
+	if r.knownSig != "" {
+		return o.Fail(r.knownSig, "%s", r.knownMsg)
 	}
 	// not stuck: a fresh honest run with equal secrets succeeds on both sides
 	r.settle()
@@ -567,14 +616,19 @@ func sameInts(a, b []*big.Int) bool {
 	return true
 }
 
-func init() { reg("C12deviant", runC12); reg("C12fields", runC12); reg("C12degenerate", runC12); reg("C12usercalls", runC12) }
+func init() {
+	reg("C12deviant", runC12)
+	reg("C12fields", runC12)
+	reg("C12degenerate", runC12)
+	reg("C12usercalls", runC12)
+}
 
 func genDStep(rt *rapid.T, kinds []string) DStep {
 	st := DStep{K: rapid.SampledFrom(kinds).Draw(rt, "k")}
 	if strings.HasPrefix(st.K, "r") && st.K != "rabort" {
 		switch rapid.IntRange(1, 6).Draw(rt, "devkind") {
 		case 6:
-			st.V, st.F = 10, rapid.IntRange(0, 1).Draw(rt, "which")
+			st.V, st.F = rapid.SampledFrom([]int{10, 11}).Draw(rt, "reseal"), rapid.IntRange(0, 3).Draw(rt, "which")
 		case 1, 2, 3:
 			st.F = rapid.IntRange(0, 10).Draw(rt, "field")
 			st.V = rapid.IntRange(1, 9).Draw(rt, "val")
@@ -673,6 +727,12 @@ func degenerateScripts() []*C12Script {
 			for _, x := range []int{9, 10, 11} {
 				out = append(out, &C12Script{Cfg: SessCfg{V: v, SeedA: 60, SeedB: 71, KeyA: 1, KeyB: 4}, Equal: eq,
 					Steps: []DStep{{K: "r1", X: x}, {K: "vanswer"}, {K: "r3"}}})
+			}
+			for f := 0; f < 4; f++ {
+				out = append(out, &C12Script{Cfg: SessCfg{V: v, SeedA: 64, SeedB: 75, KeyA: 1, KeyB: 4}, Equal: eq,
+					Steps: []DStep{{K: "r1", V: 11, F: f}, {K: "vanswer"}, {K: "r3z"}}})
+				out = append(out, &C12Script{Cfg: SessCfg{V: v, SeedA: 66, SeedB: 77, KeyA: 1, KeyB: 4}, Equal: eq,
+					Steps: []DStep{{K: "vstart"}, {K: "r2", V: 11, F: f}, {K: "r4"}}})
 			}
 			for _, x := range []int{9, 10, 12} {
 				out = append(out, &C12Script{Cfg: SessCfg{V: v, SeedA: 62, SeedB: 73, KeyA: 1, KeyB: 4}, Equal: eq,
